@@ -178,6 +178,11 @@ impl Ctx {
         Rng::new(util::mix(util::mix(self.seed, util::hash_str(&self.prop)), case))
     }
 
+    /// PRNG of another property's case (for debugging tools).
+    pub fn rng_for(&self, prop: &str, case: u64) -> Rng {
+        Rng::new(util::mix(util::mix(self.seed, util::hash_str(prop)), case))
+    }
+
     /// Marks the beginning of a case (flushed before execution, for crash attribution).
     pub fn begin(&mut self, case: u64) {
         self.last_case = case;
